@@ -388,3 +388,79 @@ package moss
 //@   props C01 C10
 //@   requires stackOK(ss)
 //@   ensures @read r1 == nil ==> r0 == readFrom(ss, len(ss.a) - 1, key, nil, readOptions.SkipLowerLevel)
+
+// ---- direct Get on a collection (C10) ------------------------------------------------------------
+
+// Reading one section (nil section = transparent) on top of what lies below.
+//@ pure func sectionRead(ss *segmentStack, key []byte, below []byte) []byte =
+//@     ite(ss == nil, below, stackRead(ss, len(ss.a) - 1, key, below))
+// What a Snapshot of the collection returns for key (property C01/C10): the
+// sections stacked top over mid over base over clean over the lower level.
+//@ pure func collRead(m *collection, key []byte, skipLower bool) []byte =
+//@     sectionRead(m.stackDirtyTop, key, sectionRead(m.stackDirtyMid, key, sectionRead(m.stackDirtyBase, key,
+//@         sectionRead(m.stackClean, key, ite(!skipLower && m.lowerLevelSnapshot != nil, llGet(m.lowerLevelSnapshot, key), nil)))))
+// What the code of collection.get computes today (known finding S7/S22: it
+// differs from collRead when a section answers nil because of a Del, when a
+// Merge must see older sections, and when SkipLowerLevel is set): the first
+// non-nil answer of the sections read in isolation, then the lower level.
+//@ pure func firstNonNil(a []byte, b []byte) []byte = ite(a != nil, a, b)
+//@ pure func chainRead(m *collection, key []byte) []byte =
+//@     firstNonNil(sectionRead(m.stackDirtyTop, key, nil), firstNonNil(sectionRead(m.stackDirtyMid, key, nil),
+//@     firstNonNil(sectionRead(m.stackDirtyBase, key, nil), firstNonNil(sectionRead(m.stackClean, key, nil),
+//@         ite(m.lowerLevelSnapshot != nil, llGet(m.lowerLevelSnapshot, key), nil)))))
+//@ pure func sectionOK(ss *segmentStack) bool = ss == nil || treeOK(ss)
+//@ pure func collOK(m *collection) bool = m != nil && sectionOK(m.stackDirtyTop) && sectionOK(m.stackDirtyMid) &&
+//@     sectionOK(m.stackDirtyBase) && sectionOK(m.stackClean)
+
+//@ func (w *SnapshotWrapper) addRef() *SnapshotWrapper
+//@   props C15
+//@   modifies w.refCount
+//@   ensures result == w
+//@   ensures w != nil ==> w.refCount == old(w.refCount) + 1
+
+//@ func (w *SnapshotWrapper) decRef() (err error)
+//@   props C15
+//@   trusted closing the wrapped lower-level snapshot does not touch the collection's sections
+//@   requires w != nil
+//@   modifies w.refCount, w.ss, w.closer
+//@   ensures w.refCount == old(w.refCount) - 1
+
+//@ func (m *collection) get(key []byte, readOptions ReadOptions) ([]byte, error)
+//@   props C10
+//@   requires collOK(m)
+//@   modifies m.lowerLevelSnapshot.refCount, m.lowerLevelSnapshot.ss, m.lowerLevelSnapshot.closer
+//@   ensures @agree r1 == nil ==> r0 == old(collRead(m, key, readOptions.SkipLowerLevel))
+//@   ensures @chain r1 == nil ==> r0 == old(chainRead(m, key))
+
+// ---- dirty gauges (C20) -------------------------------------------------------------------------
+
+// No segment anywhere in the tree of stacks (top-level and all child stacks).
+//@ pure rec func treeEmpty(ss *segmentStack) bool = ss == nil ||
+//@     (len(ss.a) == 0 && (forall c string :: has(ss.childSegStacks, c) ==> treeEmpty(ss.childSegStacks[c])))
+
+//@ func Segment.Len
+//@   attr delegate *segment
+//@ func Segment.NumKeyValBytes
+//@   attr delegate *segment
+
+// Every stack of the tree is well formed.
+//@ pure rec func treeOK(ss *segmentStack) bool = stackOK(ss) &&
+//@     (forall c string :: has(ss.childSegStacks, c) ==> ss.childSegStacks[c] == nil || treeOK(ss.childSegStacks[c]))
+
+//@ func (ss *segmentStack) Stats() *SegmentStackStats
+//@   props C20
+//@   requires treeOK(ss)
+//@   ensures @fresh result != nil && fresh(result)
+//@   ensures @zeroMeansEmpty result.CurSegments == 0 ==> treeEmpty(ss)
+//@   ensures @counts result.CurSegments >= len(ss.a)
+//@   loop 1: modifies rv.CurOps, rv.CurBytes
+//@   loop 1: invariant true
+//@   loop 2: modifies rv.CurOps, rv.CurBytes, rv.CurSegments
+//@   loop 2: invariant rv.CurSegments >= len(ss.a)
+//@   loop 2: invariant rv.CurSegments == 0 ==> (forall c string :: visited(c) ==> treeEmpty(ss.childSegStacks[c]))
+
+//@ func (m *collection) statsSegmentsLOCKED(rv *CollectionStats)
+//@   props C20
+//@   requires collOK(m) && rv != nil
+//@   modifies fields(rv)
+//@   ensures @zeroMeansEmpty rv.CurDirtySegments == 0 ==> treeEmpty(m.stackDirtyTop) && treeEmpty(m.stackDirtyMid) && treeEmpty(m.stackDirtyBase)
